@@ -3,6 +3,7 @@ Model: coq/Map/*.v ; harness: harness/map_h.c (keyvalue.c + mod_rewrite.c of the
 import base64, itertools, os, re
 import vlib
 from vlib import hx, unhx
+import C02, roots
 
 LINK = [s for s in vlib.COMMON_SRC if s != "keyvalue.c"]
 TL, TU, NONE, ALL, NDE, PSNDE, E64, D64 = 1, 2, 4, 8, 16, 32, 64, 128
@@ -445,9 +446,16 @@ def run(ctx):
                        "Map.MapModel.burl_append/subst vs burl_append()/pcre_keyvalue_buffer_subst()")
     ctx.add_samples([dict(case=describe(c), impl=o) for c, o in list(zip(cases, out_i))[:: max(1, len(cases) // 4)]][:4])
     found2 = run_rules(ctx, exe, model)
+    # alias.url / simple-vhost / evhost: the mapping stages modelled in coq/Roots, judged here against what their documentation says
+    mcases = [c for c in roots.gen_unit_cases(ctx) if c[0] in "AVE"]
+    out_i3, _, found3 = C02.correspond(ctx, "C20", "roots_h", "ROOTS", mcases, roots.monitor_mapping, roots.describe_unit, "roots-mapping", link=roots.LINK)
+    ctx.cov["distinct_nontrivial"] += len(set(c for c, o in zip(mcases, out_i3) if o.split()[:1] not in (["X"], ["?"])))
+    found2 = found2 or found3
     ctx.cov["rule"] = ("burl_append: all 256 flag values x all strings <= 2 (3 thorough) over {a Z % 4 f / SP 0xe9 - m} with/without bytes following the capture, base64url words; "
                        "templates: every modifier sequence <= 2 (sampled 3) x every placeholder x $/% x capture contexts, random token-grammar templates incl. malformed; "
-                       "rule lists from a regex pool x templates x targets through real PCRE2 (process and rewrite once/repeat loops); non-trivial = non-empty expansion / a rule fired")
+                       "rule lists from a regex pool x templates x targets through real PCRE2 (process and rewrite once/repeat loops); non-trivial = non-empty expansion / a rule fired; "
+                       "alias.url over every tail <= 5 after each key, simple-vhost and evhost path construction over hosts <= 4-6 from {a b . : 1 / 8} plus named hosts and 15 patterns, "
+                       "each judged by a reference written from the modules' documentation")
     if not ok and not (found or found2):
         ctx.proof_broken_violation()
 
